@@ -277,7 +277,7 @@ func runC10(c *Ctx) {
 			}
 		}
 		for _, cd := range core.CondsAt(b) {
-			if op, x, y, ok := core.BinCmp(cd.V); ok && op == token.EQL && cd.True && isTokT(x.Type()) {
+			if op, x, y, ok := cd.Holds(); ok && op == token.EQL && isTokT(x.Type()) {
 				if k, isK := core.IntConst(y); isK && k == tokParenL {
 					underParen = true
 				}
